@@ -41,7 +41,7 @@ def run(prop, tier):
         rep.add_tlc("MC_MemLogB.cfg (level B, lock in place)", r, {"NT": 2, "Locked": True})
         if r.violated:
             rep.violation("TLC: %s violated on MemLogB.tla" % r.violated, {"engine": "conc", "tlc_tail": r.out[-4000:]})
-        r = run_tlc("MC_MemLogB", "MC_MemLogB_broken.cfg", timeout=600)
+        r = run_tlc("MC_MemLogB", "MC_MemLogB_broken.cfg", timeout=600, only="C16_Paired")
         require_ok(r, "MC_MemLogB_broken")
         rep.add_tlc("MC_MemLogB_broken.cfg (vacuity guard: lock removed)", r, {"NT": 2, "Locked": False}, expect_violation="C16_Paired")
         if r.violated != "C16_Paired":
